@@ -776,26 +776,119 @@ func (f *Fn) factsAfterCond(cond ast.Expr, truth bool) *FactSet {
 }
 
 // branchFacts handles break/continue/goto statements, which are edges (not nodes) in
-// go/cfg: supported when the statement opens the body of an if/else.
+// go/cfg. The facts are those holding where the statement executes: after the preceding
+// simple statement of the same list, or - when it opens a body - on the edge into that
+// body (if/else, a single-expression case clause, or default).
 func (f *Fn) branchFacts(br *ast.BranchStmt) *FactSet {
-	var res *FactSet
+	var stack []ast.Node
+	var path []ast.Node
 	ast.Inspect(f.Body, func(n ast.Node) bool {
-		ifs, ok := n.(*ast.IfStmt)
-		if !ok || res != nil {
-			return res == nil
+		if n == nil {
+			stack = stack[:len(stack)-1]
+			return true
 		}
-		if len(ifs.Body.List) > 0 && ifs.Body.List[0] == ast.Stmt(br) {
-			res = f.factsAfterCond(ifs.Cond, true)
+		if path != nil {
+			return false
 		}
-		if eb, ok := ifs.Else.(*ast.BlockStmt); ok && len(eb.List) > 0 && eb.List[0] == ast.Stmt(br) {
-			res = f.factsAfterCond(ifs.Cond, false)
+		stack = append(stack, n)
+		if n == ast.Node(br) {
+			path = append([]ast.Node{}, stack...)
 		}
 		return true
 	})
-	if res == nil {
-		f.C.Failf("pathfacts: branch statement at %s is not the first statement of an if/else body (undecided)", f.C.pos(br.Pos()))
+	undecided := func(why string) *FactSet {
+		f.C.Failf("pathfacts: branch statement at %s: %s (undecided)", f.C.pos(br.Pos()), why)
+		return nil
 	}
-	return res
+	if len(path) < 2 {
+		return undecided("not found in " + f.Name)
+	}
+	cont := path[len(path)-2]
+	var list []ast.Stmt
+	switch x := cont.(type) {
+	case *ast.BlockStmt:
+		list = x.List
+	case *ast.CaseClause:
+		list = x.Body
+	case *ast.CommClause:
+		list = x.Body
+	default:
+		return undecided("unexpected container")
+	}
+	idx := -1
+	for i, st := range list {
+		if st == ast.Stmt(br) {
+			idx = i
+		}
+	}
+	if idx > 0 {
+		switch prev := list[idx-1].(type) {
+		case *ast.ExprStmt, *ast.AssignStmt, *ast.IncDecStmt, *ast.SendStmt, *ast.GoStmt, *ast.DeferStmt:
+			return f.factsAfterNode(prev)
+		case *ast.DeclStmt:
+			return f.FactsAt(prev)
+		}
+		return undecided("preceded by a compound statement")
+	}
+	switch x := cont.(type) {
+	case *ast.BlockStmt:
+		if len(path) >= 3 {
+			if ifs, ok := path[len(path)-3].(*ast.IfStmt); ok {
+				if ifs.Body == x {
+					return f.factsAfterCond(ifs.Cond, true)
+				}
+				if ifs.Else == ast.Stmt(x) {
+					return f.factsAfterCond(ifs.Cond, false)
+				}
+			}
+		}
+	case *ast.CaseClause:
+		if len(x.List) == 1 {
+			return f.factsAfterCond(x.List[0], true)
+		}
+		if x.List == nil && len(path) >= 4 {
+			// default: every case expression was false; go/cfg tests the cases in source
+			// order and enters default last
+			if body, ok := path[len(path)-3].(*ast.BlockStmt); ok {
+				var last ast.Expr
+				for _, cl := range body.List {
+					if cc, ok := cl.(*ast.CaseClause); ok && len(cc.List) > 0 {
+						last = cc.List[len(cc.List)-1]
+					}
+				}
+				if last != nil {
+					return f.factsAfterCond(last, false)
+				}
+			}
+		}
+	}
+	return undecided("opens a body whose entry condition is not a single test")
+}
+
+// factsAfterNode returns the facts holding right after CFG node n executed.
+func (f *Fn) factsAfterNode(n ast.Node) *FactSet {
+	a := f.facts()
+	b, idx := f.locate(n)
+	if b == nil {
+		f.C.Failf("pathfacts: cannot locate %s in CFG of %s", f.C.pos(n.Pos()), f.Name)
+	}
+	in := a.in[b]
+	if in == nil || !b.Live {
+		return &FactSet{Unreachable: true, f: f}
+	}
+	st := in.clone()
+	for _, v := range a.rangeKV[b] {
+		a.unbind(st, v)
+	}
+	for i := 0; i <= idx; i++ {
+		a.transfer(st, b.Nodes[i])
+	}
+	fs := &FactSet{f: f, bind: st.bind}
+	for _, fa := range st.facts {
+		fs.Facts = append(fs.Facts, fa)
+	}
+	sort.Slice(fs.Facts, func(i, j int) bool { return fs.Facts[i].key < fs.Facts[j].key })
+	return fs
 }
 
 func (f *Fn) localFactsAt(n ast.Node) *FactSet {
